@@ -25,7 +25,7 @@ def msg_of(n):
     return bytes(((i * i * 31 + i * 7 + 3) % 256) for i in range(n))
 
 
-def run_recv(body, chunks, end, flen=None):
+def run_recv(body, chunks, end, flen=None, tmo=0):
     from pycomm3.socket_ import Socket
     from pycomm3.exceptions import CommError
     frame = frame_of(body)
@@ -35,14 +35,14 @@ def run_recv(body, chunks, end, flen=None):
     with mock.patch("socket.socket", FakeRawSocket):
         s = Socket()
         try:
-            data = s.receive()
+            data = s.receive(timeout=tmo) if tmo else s.receive()
             out = {"kind": "bytes", "len": len(data), "eq": 1 if data == frame else 0}
         except BudgetExceeded:
             out = {"kind": "hang"}
         except Exception as ex:
             out = {"kind": "exc", "comm": 1 if isinstance(ex, CommError) else 0, "cls": type(ex).__name__}
     return {"op": "recv", "body": body, "flen": H + body, "calls": sc.recv_calls, "out": out,
-            "script": {"chunks": chunks if len(chunks) < 40 else chunks[:40] + ["..."], "end": end or "none"}}
+            "script": {"chunks": chunks if len(chunks) < 40 else chunks[:40] + ["..."], "end": end or "none", "tmo": tmo}}
 
 
 def run_recv_seq(calls):
@@ -183,6 +183,9 @@ def seeded(ctx, rnd, thorough):
                     part.append(k)
                     acc += k
                 cases.append(run_recv(body, part, end))
+                if end != "eof":                      # the same with an explicit time-out argument (the driver passes one)
+                    cases.append(run_recv(body, part, end, tmo=rnd.choice([1, 5, 0.5])))
+            cases.append(run_recv(body, list(s), None, tmo=5))
         for cut in sorted({0, 1, 2, 3, 4, 23, 24, flen - 1} & set(range(0, flen))):
             for end in ("eof", "err"):
                 cases.append(run_recv(body, [cut] if cut else [], end))
@@ -266,7 +269,7 @@ def replay(path):
         seq.append((c["body"], [k for k in sc["chunks"] if isinstance(k, int)], None if sc["end"] == "none" else sc["end"]))
         out = run_recv_seq(seq)[-1]
     elif c["op"] == "recv":
-        out = run_recv(c["body"], [k for k in sc["chunks"] if isinstance(k, int)], None if sc["end"] == "none" else sc["end"])
+        out = run_recv(c["body"], [k for k in sc["chunks"] if isinstance(k, int)], None if sc["end"] == "none" else sc["end"], tmo=sc.get("tmo", 0)) if sc.get("tmo") else run_recv(c["body"], [k for k in sc["chunks"] if isinstance(k, int)], None if sc["end"] == "none" else sc["end"])
     else:
         out = run_send(c["mlen"], sc["accepts"], None if sc["end"] == "none" else sc["end"])
     print(json.dumps({"recorded": c["out"], "now": out["out"], "calls": out["calls"][:20]}, indent=1))
